@@ -91,7 +91,7 @@ def cmd_mutants(a):
             shutil.copytree("/repo/pint", os.path.join(scratch, "pint"),
                             ignore=shutil.ignore_patterns("__pycache__", "testsuite"))
             apply_mutant(scratch, m)
-            env = dict(os.environ, VERIF_PINT_PATH=scratch)
+            env = dict(os.environ, VERIF_PINT_PATH=scratch, VERIF_REPLAY_DIR=os.path.join(scratch, "replays"))
             t0 = time.time()
             p = subprocess.run([os.path.join(ROOT, "check"), m["prop"], "--tier", a.tier, "--no-evidence"],
                                env=env, capture_output=True, text=True, timeout=3600)
@@ -104,7 +104,6 @@ def cmd_mutants(a):
                 print(p.stdout[-1500:], p.stderr[-1500:])
         finally:
             shutil.rmtree(scratch, ignore_errors=True)
-            shutil.rmtree(os.path.join(ROOT, "replays"), ignore_errors=True)
     missed = [r for r in rows if not r[2]]
     print(f"{len(rows) - len(missed)}/{len(rows)} mutants caught")
     if a.json:
